@@ -34,14 +34,24 @@ cp $wt/out/change$k.diff $out/patch.diff
 cp $demo $out/$(basename $place)
 cp $wt/out/change$k.md $out/description.md 2>/dev/null
 echo "== /verif check with the change applied to /repo" >> $log
-git -C /repo apply $out/patch.diff && (cd /verif && ./bin/govc check $prop > $out/check_output.txt 2>&1; echo $? > $out/check_exit.txt); git -C /repo apply -R $out/patch.diff
-chk=$(cat $out/check_exit.txt)
+# the 4th argument may list several properties (comma separated): the seed counts as detected if any check exits 1
+: > $out/check_output.txt; chk=0; detected_by=""
+if git -C /repo apply $out/patch.diff; then
+  for pp in $(echo $prop | tr ',' ' '); do
+    (cd /verif && ./bin/govc check $pp >> $out/check_output.txt 2>&1); ex=$?
+    echo "check $pp exit=$ex" >> $out/check_output.txt
+    if [ $ex -eq 1 ]; then chk=1; detected_by="$detected_by $pp"; fi
+    if [ $ex -ne 0 ] && [ $chk -eq 0 ]; then chk=$ex; fi
+  done
+  git -C /repo apply -R $out/patch.diff
+fi
+echo $chk > $out/check_exit.txt
 python3 - <<PY
 import json
 json.dump({"seed": "$id", "property": "$prop", "demo_file": "$(basename $place)", "demo_place": "$place", "demo_cmd": "$runline",
   "baseline_suite_exit_with_change": $base, "demo_exit_with_change": $with, "demo_exit_without_change": $without,
   "confirmed": ($base == 0 and $with != 0 and $without == 0), "check_exit_with_change": $chk,
-  "detected": $chk == 1,
+  "detected": $chk == 1, "detected_by": "$detected_by".split(),
   "needs_to_manifest": open("$out/description.md").read()[:1500] if __import__("os").path.exists("$out/description.md") else "",
   "ran": ["go build ./... && go test -vet=off -count=1 -timeout 25m -skip TestBlockCircuitProver ./... (with change)", "$runline (with and without change)", "git -C /repo apply patch.diff; ./bin/govc check $prop; git -C /repo checkout -- ."]},
   open("$out/meta.json","w"), indent=1)
